@@ -206,7 +206,185 @@ pub fn run_pattern(p: &Prepared, fdt: FdtMode, mult: &[u8], g: &mut G) -> Option
     None
 }
 
+
+// ------------------------------------------------------------------------------------------------
+// Multi-object sessions: two objects (one and two blocks), multiplexed or sequential, both FDT publish
+// modes; every loss subset over ALL packets of the session, FDT packets included. Premise per
+// object: a complete FDT instance listing it arrived and every block keeps enough symbols.
+
+#[derive(Serialize, Deserialize, Clone, Debug)]
+pub struct MultiCfg {
+    pub scheme: Scheme,
+    pub k: u16,
+    pub parity: u16,
+    pub full_fdt: bool,
+    pub multiplex: u32,
+    pub inband_fti: bool,
+    /// second object in a lower-priority queue
+    pub two_queues: bool,
+}
+
+pub struct MultiPrepared {
+    pub rec: Rec,
+    /// per object: (toi, content, k per block)
+    pub objs: Vec<(u128, Vec<u8>, Vec<u32>)>,
+    /// FDT instance id -> TOIs listed
+    pub listing: BTreeMap<u32, BTreeSet<u128>>,
+    /// FDT instance id -> number of packets the instance needs
+    pub fdt_pkts: BTreeMap<u32, usize>,
+}
+
+pub fn prepare_multi(c: &MultiCfg) -> Result<MultiPrepared, String> {
+    let e = 2u16;
+    let mut objs = Vec::new();
+    let shape: [usize; 2] = if c.scheme == Scheme::Raptor { [1, 1] } else { [1, 2] };
+    for (j, blocks) in shape.iter().enumerate() {
+        let mut o = ObjSpec::simple(blocks * c.k as usize * e as usize - 1, 30 + j as u8);
+        o.oti = Some(OtiSpec::new(c.scheme, e, c.k, c.parity, c.inband_fti));
+        o.inband_cenc = c.inband_fti;
+        o.prio = if c.two_queues && j == 1 { 1 } else { 0 };
+        objs.push(o);
+    }
+    let mut s = SessSpec::basic(OtiSpec::new(Scheme::NoCode, 1424, 64, 0, true));
+    s.full_fdt = c.full_fdt;
+    s.queues = if c.two_queues { vec![(0, c.multiplex), (1, c.multiplex)] } else { vec![(0, c.multiplex)] };
+    let spec = RecSpec { sess: s, objs: objs.clone(), polls_ms: vec![0] };
+    let rec = record(&spec)?;
+    let mut out = Vec::new();
+    for (toi, i, tl) in &rec.objs {
+        let p = crate::rfc::partition(c.k as u128, *tl as u128, e as u128).ok_or("partition")?;
+        out.push((*toi, objs[*i].content(), (0..p.n).map(|b| p.symbols_of(b) as u32).collect()));
+    }
+    // FDT instances: reassemble each instance's XML from its (No-Code) packets and read the TOIs it lists
+    let mut xml: BTreeMap<u32, BTreeMap<(u32, u32), Vec<u8>>> = BTreeMap::new();
+    for (i, inf) in rec.info.iter().enumerate() {
+        if inf.toi == 0 {
+            let r = crate::rfc::decode(&rec.pkts[i].1).map_err(|e| e.to_string())?;
+            xml.entry(inf.fdt_id.ok_or("FDT packet without EXT_FDT")?).or_default().insert((inf.sbn, inf.esi), r.payload().to_vec());
+        }
+    }
+    let mut listing = BTreeMap::new();
+    let mut fdt_pkts = BTreeMap::new();
+    for (id, parts) in xml {
+        let doc: Vec<u8> = parts.values().flatten().cloned().collect();
+        let txt = String::from_utf8_lossy(&doc).to_string();
+        let mut set = BTreeSet::new();
+        for seg in txt.split("TOI=\"").skip(1) {
+            if let Some(v) = seg.split('"').next().and_then(|x| x.parse::<u128>().ok()) {
+                set.insert(v);
+            }
+        }
+        fdt_pkts.insert(id, parts.len());
+        listing.insert(id, set);
+    }
+    Ok(MultiPrepared { rec, objs: out, listing, fdt_pkts })
+}
+
+#[derive(Default, Clone)]
+pub struct MG {
+    pub execs: u64,
+    pub premises: u64,
+    pub both_recoverable_with_loss: u64,
+    pub one_only: u64,
+    pub fdt_instances_max: u64,
+}
+
+pub fn run_multi(c: &MultiCfg, p: &MultiPrepared, lost: u32, g: &mut MG) -> Option<(String, String)> {
+    g.execs += 1;
+    let n = p.rec.pkts.len();
+    let kept: Vec<usize> = (0..n).filter(|i| lost >> i & 1 == 0).collect();
+    // complete FDT instances received
+    let mut got_fdt: BTreeMap<u32, BTreeSet<(u32, u32)>> = BTreeMap::new();
+    for &i in &kept {
+        let inf = &p.rec.info[i];
+        if inf.toi == 0 {
+            got_fdt.entry(inf.fdt_id.unwrap()).or_default().insert((inf.sbn, inf.esi));
+        }
+    }
+    let complete_fdts: Vec<u32> = got_fdt.iter().filter(|(id, s)| s.len() == p.fdt_pkts[*id]).map(|(id, _)| *id).collect();
+    let mut expect = Vec::new();
+    for (toi, _, k_of) in &p.objs {
+        let announced = complete_fdts.iter().any(|id| p.listing[id].contains(toi));
+        let mut got: BTreeMap<u32, BTreeSet<u32>> = BTreeMap::new();
+        for &i in &kept {
+            let inf = &p.rec.info[i];
+            if inf.toi == *toi {
+                got.entry(inf.sbn).or_default().insert(inf.esi);
+            }
+        }
+        let blocks_ok = k_of.iter().enumerate().all(|(b, k)| {
+            let s = got.get(&(b as u32)).cloned().unwrap_or_default();
+            match c.scheme {
+                Scheme::Rs28 | Scheme::Rs28Us => s.len() as u32 >= *k,
+                _ => s.iter().filter(|e| **e < *k).count() as u32 == *k,
+            }
+        });
+        expect.push(announced && blocks_ok);
+    }
+    let nrec = expect.iter().filter(|x| **x).count();
+    g.premises += nrec as u64;
+    if nrec == 2 && lost != 0 {
+        g.both_recoverable_with_loss += 1;
+    }
+    if nrec == 1 {
+        g.one_only += 1;
+    }
+    let seq: Vec<(std::time::SystemTime, &[u8])> = kept.iter().map(|i| (p.rec.pkts[*i].0, &p.rec.pkts[*i].1[..])).collect();
+    let out = deliver_seq(&seq, recv_config(true), true);
+    if let Some(pm) = out.panic {
+        return Some((format!("C02/panic/{}", panic_sig(&pm)), format!("panic: {}", pm)));
+    }
+    for (j, (toi, content, _)) in p.objs.iter().enumerate() {
+        let completes: Vec<_> = out.writers.iter().filter(|w| w.toi == *toi && w.is_complete()).collect();
+        for w in &completes {
+            if &w.data() != content {
+                return Some((format!("C02/multi/complete-with-wrong-bytes/{:?}", c.scheme), format!("TOI {}: writer [{}] completed with other bytes", toi, w.short())));
+            }
+        }
+        if expect[j] && completes.len() != 1 {
+            let logs: Vec<String> = out.writers.iter().map(|w| format!("toi {}: {}", w.toi, w.short())).collect();
+            let lost_desc: Vec<String> = (0..n).filter(|i| lost >> i & 1 == 1).map(|i| { let f = &p.rec.info[i]; if f.toi == 0 { format!("FDT#{}", f.fdt_id.unwrap()) } else { format!("{}:{}.{}", f.toi, f.sbn, f.esi) } }).collect();
+            return Some((
+                format!("C02/multi/recoverable-not-delivered/{}{}{}", if c.full_fdt { "full-fdt" } else { "obt" }, if c.inband_fti { "/inband-fti" } else { "/fdt-only-oti" }, if completes.len() > 1 { "/multiple-completes" } else { "" }),
+                format!("{:?} k={} parity={} multiplex={} two_queues={}: losing [{}] of {} packets leaves object TOI {} announced (complete instances {:?}, listings {:?}) with enough symbols, but it has {} complete deliveries; writers [{}]", c.scheme, c.k, c.parity, c.multiplex, c.two_queues, lost_desc.join(" "), n, toi, complete_fdts, p.listing, completes.len(), logs.join(" | ")),
+            ));
+        }
+    }
+    None
+}
+
+pub fn multi_configs(thorough: bool) -> Vec<MultiCfg> {
+    let mut v = Vec::new();
+    for scheme in ALL_SCHEMES {
+        let (k, parity) = match scheme {
+            Scheme::NoCode => (2u16, 0u16),
+            Scheme::Raptor => (4, 1),
+            _ => (2, 1),
+        };
+        for full_fdt in [true, false] {
+            for multiplex in [1u32, 2] {
+                for inband_fti in [true, false] {
+                    for two_queues in [false, true] {
+                        if two_queues && multiplex == 2 && !thorough {
+                            continue;
+                        }
+                        v.push(MultiCfg { scheme, k, parity, full_fdt, multiplex, inband_fti, two_queues });
+                    }
+                }
+            }
+        }
+    }
+    v
+}
+
 pub fn replay(v: &serde_json::Value) -> Vec<Violation> {
+    if v["check"] == "multi" {
+        let c: MultiCfg = serde_json::from_value(v["case"]["cfg"].clone()).expect("cfg");
+        let lost = v["case"]["lost"].as_u64().unwrap() as u32;
+        let p = prepare_multi(&c).expect("prepare");
+        let mut g = MG::default();
+        return run_multi(&c, &p, lost, &mut g).into_iter().map(|(key, what)| Violation { key, what, case: v.clone() }).collect();
+    }
     let case: Case = serde_json::from_value(v["case"].clone()).expect("case");
     let p = prepare(&case.cfg).expect("prepare");
     let mut g = G::default();
@@ -395,6 +573,48 @@ pub fn run(thorough: bool) -> i32 {
             }
         }
     }
+    // ---- multi-object sessions ----
+    let mcfgs = multi_configs(thorough);
+    let mres = par_map(&mcfgs, |_, c| {
+        let mut g = MG::default();
+        let mut viol: BTreeMap<String, (String, u32)> = BTreeMap::new();
+        let p = match prepare_multi(c) {
+            Ok(p) => p,
+            Err(e) => return (g, viol, Some(e)),
+        };
+        let n = p.rec.pkts.len();
+        g.fdt_instances_max = p.listing.len() as u64;
+        if n > 18 {
+            return (g, viol, Some(format!("session has {} packets", n)));
+        }
+        for lost in 0..(1u32 << n) {
+            if let Some((k, w)) = run_multi(c, &p, lost, &mut g) {
+                viol.entry(k).or_insert((w, lost));
+            }
+        }
+        (g, viol, None)
+    });
+    let mut mg = MG::default();
+    for (c, (gg, viol, err)) in mcfgs.iter().zip(mres) {
+        mg.execs += gg.execs;
+        mg.premises += gg.premises;
+        mg.both_recoverable_with_loss += gg.both_recoverable_with_loss;
+        mg.one_only += gg.one_only;
+        mg.fdt_instances_max = mg.fdt_instances_max.max(gg.fdt_instances_max);
+        if let Some(e) = err {
+            rep.machinery(format!("multi-object session {:?}: {}", c, e));
+        }
+        for (key, (what, lost)) in viol {
+            rep.add(Violation { key, what, case: json!({"check": "multi", "case": {"cfg": c, "lost": lost}}) });
+        }
+    }
+    g.execs += mg.execs;
+    g.recoverable += mg.premises;
+    rep.cov("multi_object_sessions", mcfgs.len() as u64);
+    rep.cov("multi_object_patterns", mg.execs);
+    rep.cov("multi_object_max_fdt_instances", mg.fdt_instances_max);
+    rep.guard("multi_object_patterns_with_loss_and_both_recoverable", mg.both_recoverable_with_loss);
+    rep.guard("multi_object_patterns_with_exactly_one_recoverable", mg.one_only);
     rep.cov("evaluations", g.execs);
     rep.cov("distinct_nontrivial", g.recoverable);
     rep.cov("rule", "for each recorded real session (scheme x (k,parity) x block shape x interleave x in-band/FDT-only OTI x transfer count): every one of the 2^n loss subsets of the n object packets, and every 3^n multiplicity vector (lost/once/twice, n <= dup bound); for the large sessions (5 and 7 blocks, 30-50 packets) every pattern with at most 2 (quick) / 3 (thorough) lost packets and every (one lost, one duplicated) pair; all crossed with FDT delivered first / only after the object / never; a pattern is non-trivial when the harness's own RFC decode says every block keeps enough symbols and an FDT copy arrives (the property's premise); all patterns are distinct by construction");
